@@ -40,6 +40,33 @@ def gen_shape(rng, idx, max_cps=3, cross_prob=0.7, opts=True, small=True):
     return {"cps": cps, "crosses": crosses}
 
 
+def near_variant(rng, sh, opts):
+    """a parameterised variant that differs from `sh` in exactly one coverpoint (any position, biased
+    away from the last) - or only in an option - and is otherwise identical"""
+    import copy
+    v = copy.deepcopy(sh)
+    n = len(v["cps"])
+    j = rng.randrange(n) if (n == 1 or rng.random() < 0.3) else rng.randrange(n - 1)
+    old = v["cps"][j]
+    if opts and rng.random() < 0.15:
+        old["at_least"] = old["at_least"] + 1
+        return v
+    for _ in range(30):
+        s = covlib.gen_cp_spec(rng, j)
+        w = s["type"].get("w", 3)
+        if s["type"]["kind"] == "int" and w > 4:
+            continue
+        s.pop("samples", None)
+        s["name"] = old["name"]
+        s["at_least"] = old["at_least"]
+        s["weight"] = old["weight"]
+        v["cps"][j] = s
+        break
+    if rng.random() < 0.6:
+        v["crosses"] = [x for x in v["crosses"] if j not in x["cps"]]
+    return v
+
+
 def domain_of(ty):
     if ty["kind"] == "enum":
         return sorted(v for v, _ in ty["members"])
@@ -64,8 +91,11 @@ def gen_scenario(rng, idx, n_ops=None, with_save=False, opts=True, cross_prob=0.
     for t in range(ntn):
         tn = "T%d" % t
         shapes[tn] = [gen_shape(rng, idx, opts=opts, cross_prob=cross_prob)]
-        if rng.random() < 0.5:
-            shapes[tn].append(gen_shape(rng, idx, opts=opts, cross_prob=cross_prob))
+        if rng.random() < 0.6:
+            if rng.random() < 0.6:
+                shapes[tn].append(near_variant(rng, shapes[tn][0], opts))
+            else:
+                shapes[tn].append(gen_shape(rng, idx, opts=opts, cross_prob=cross_prob))
     ops = []
     insts = []   # (tname, shape)
     n_ops = n_ops or rng.randint(6, 30)
